@@ -1,25 +1,171 @@
 """C04 — a test is never executed by two workers of one scope at the same time."""
+
+from __future__ import annotations
+
+import ast
+
+from .. import norm
+from ..ctx import Ctx
+from ..facts import is_call_named
+from ..kinds import function_views, names_interesting
+from ..paths import first_line
+from ..repo import AnalysisError, call_name, calls_in
 from . import traversal as T
+from .c02 import occupied_bounce
 
-EXPLANATION = "structural necessary conditions of mutual exclusion on a single asyncio loop"
-DECIDED = []
-NOT_DECIDED = []
-MIN_INSTANCES = 5
+NODE = "cartgraph/node.py"
+
+EXPLANATION = (
+    "On a single cooperative event loop, code between suspension points is atomic. The check decides that the "
+    "occupation test and the marker store form such an atomic test-and-set, that the marker has a closed set of "
+    "writers, is released only after the awaited run, that the occupation threshold is derived from "
+    "max_concurrent_tries/max_tries with a floor of one, that re-entrancy is granted only after the waiting budget "
+    "is exhausted, and that an occupied node is bounced from. Real-time overlap under timeout overrun is not decided."
+)
+DECIDED = [
+    "C04.1 occupation test-and-set atomic in traverse_node and reverse_node (T.A1)",
+    "C04.2 writers of started_worker / finished_worker (closed owner table)",
+    "C04.3 marker released only after the awaited run, on every normal exit (T.P1)",
+    "C04.4 single event loop, no threads (T.E1)",
+    "C04.5 scope discrimination agreement (T.S1)",
+    "C04.6 is_occupied = is_started(worker, max(max_concurrent_tries|max_tries, 1)); is_started reads all bridged copies",
+    "C04.7 re-entrancy (max_concurrent_tries store) only after waiting longer than the test duration on the same node",
+    "C04.8 occupied bounce (reset, bounded sleep, continue, no traversal in the same iteration)",
+]
+NOT_DECIDED = ["overlap when a test overruns its timeout", "completeness of bridging (C09)"]
+MIN_INSTANCES = 25
 
 
-def run(ctx):
+def is_occupied_rule(ctx: Ctx, rule: str) -> None:
+    fref = f"{NODE}:TestNode.is_occupied"
+    fn = ctx.repo.func(fref)
+    views = function_views(ctx, fref, None, roles=["worker"])
+    ok = len(views) == 1 and views[0].path.exit == "return"
+    text = None
+    if ok:
+        v = views[0]
+        c = v.canon(v.path.exit_node.value, len(v.steps))
+        text = ast.unparse(c)
+        want = ("self.is_started(worker, max(self.params.get_numeric('max_concurrent_tries', "
+                "self.params.get_numeric('max_tries', 1)), 1))")
+        ok = text == want
+    ctx.record(rule, "PROV", fref, "is_occupied(worker) = is_started(worker, max(max_concurrent_tries (default max_tries, default 1), 1))",
+               ok, {"extracted": text}, "" if ok else f"the occupation threshold changed: {text}")
+    # is_started reads the markers of the node and of every bridged copy
+    fref2 = f"{NODE}:TestNode.shared_started_workers"
+    fn2 = ctx.repo.func(fref2)
+    ctx.touch(fref2)
+    loops = [l for l in ast.walk(fn2.node) if isinstance(l, ast.For) and ast.unparse(l.iter) == "self.bridged_nodes"]
+    adds = [c for c in calls_in(fn2.node) if call_name(c) == "add"]
+    added = sorted(ast.unparse(c.args[0]) for c in adds if c.args)
+    ok2 = len(loops) == 1 and isinstance(loops[0].target, ast.Name) and \
+        added == sorted(["self.started_worker", f"{loops[0].target.id}.started_worker"])
+    # both adds only guarded by "is not None"
+    ctx.record(rule + "b", "PROV", fref2, "shared_started_workers = markers of this node and of every bridged node", ok2,
+               {"added": added}, "" if ok2 else "the set of starting workers no longer covers the node and all its bridged copies")
+    fs = ctx.repo.func(f"{NODE}:TestNode.is_started")
+    reads = {n.attr for n in ast.walk(fs.node) if isinstance(n, ast.Attribute) and isinstance(n.value, ast.Name) and n.value.id == "self"}
+    ok3 = "shared_started_workers" in reads and "started_worker" not in reads
+    ctx.record(rule + "c", "PROV", fs.ref, "is_started reads shared_started_workers (never the node's own marker alone)", ok3, {"reads": sorted(reads)},
+               "" if ok3 else "is_started looks at this node's own marker only: bridged copies would not exclude each other")
+    # threshold comparisons: at least N started workers
+    cmps = [ast.unparse(n) for n in ast.walk(fs.node) if isinstance(n, ast.Compare) and "threshold" in ast.unparse(n) and "len(" in ast.unparse(n)]
+    ok4 = len(cmps) == 2 and all(c.endswith(">= threshold") for c in cmps)
+    ctx.record(rule + "d", "TABLE", fs.ref, "started iff at least `threshold` workers in scope hold the marker (>=)", ok4, {"comparisons": cmps},
+               "" if ok4 else f"the threshold comparison of is_started changed: {cmps}")
+
+
+def reentrancy_rule(ctx: Ctx, rule: str) -> None:
+    # every store to params["max_concurrent_tries"] in the package
+    stores = []
+    for rel, tree in ctx.repo.trees.items():
+        for n in ast.walk(tree):
+            tgts = n.targets if isinstance(n, ast.Assign) else ([n.target] if isinstance(n, ast.AugAssign) else [])
+            for t in tgts:
+                if isinstance(t, ast.Subscript) and isinstance(t.slice, ast.Constant) and t.slice.value == "max_concurrent_tries":
+                    stores.append((rel, n))
+            if isinstance(n, ast.Call) and call_name(n) in ("update", "setdefault") and "max_concurrent_tries" in ast.unparse(n):
+                stores.append((rel, n))
+    in_loop = [n for rel, n in stores if rel == T.GRAPH]
+    ok_owner = len(stores) == len(in_loop) and len(stores) >= 1
+    ctx.record(rule, "OWNER", "avocado_i2n", "max_concurrent_tries is only ever raised in the traversal loop's occupied branch", ok_owner,
+               {"stores": [f"{rel}: {first_line(n)}" for rel, n in stores]},
+               "" if ok_owner else "max_concurrent_tries is written somewhere else than in the occupied branch")
+    views = T.loop_views(ctx)
+    n, bad = 0, None
+    for v in views:
+        for i, s in v.stmts(lambda s: isinstance(s, (ast.Assign, ast.AugAssign)) and "max_concurrent_tries" in ast.unparse(
+                s.targets[0] if isinstance(s, ast.Assign) else s.target)):
+            n += 1
+            prem = v.premise(i, 0)
+            recv = ast.unparse((s.targets[0] if isinstance(s, ast.Assign) else s.target).value.value)
+            rf = v.canon_text(ast.parse(recv, mode="eval").body, i)
+            req = norm.conj([
+                v.formula_of(ast.parse(f"{recv}.is_occupied(worker)", mode="eval").body, i),
+                v.formula_of(ast.parse(f"{recv} in occupied_at", mode="eval").body, i),
+                v.formula_of(ast.parse("occupied_wait > test_duration", mode="eval").body, i),
+            ])
+            if not norm.implies(prem, req):
+                bad = (v, norm.show(req), norm.show(prem))
+            # increment by one
+            val = s.value
+            if isinstance(s, ast.Assign):
+                ok_inc = isinstance(val, ast.BinOp) and isinstance(val.op, ast.Add) and isinstance(val.right, ast.Constant) and val.right.value == 1
+            else:
+                ok_inc = isinstance(s.op, ast.Add) and isinstance(val, ast.Constant) and val.value == 1
+            if not ok_inc:
+                bad = (v, "increment by one", ast.unparse(s))
+    ctx.expect_sites(rule + "b", n, 1, T.TOT, False, "store to params['max_concurrent_tries']")
+    ctx.record(rule + "b", "GUARD", T.TOT, "re-entrancy granted (+1) only when the same occupied node was waited for longer than its test duration",
+               bad is None, {"paths": n, **({"required": bad[1], "known": bad[2]} if bad else {})},
+               "" if bad is None else "re-entrancy into an occupied node is granted without exhausting the waiting budget")
+    # the wait counter restarts for a different node
+    n2, bad2 = 0, None
+    for v in views:
+        occ = [i for i, s in enumerate(v.steps) if s.kind == "cond" and s.pol and isinstance(s.node, ast.Call) and call_name(s.node) == "is_occupied"]
+        if not occ:
+            continue
+        n2 += 1
+        other = [i for i, s in enumerate(v.steps) if s.kind == "cond" and not s.pol and "occupied_at" in ast.unparse(s.node)]
+        if other:
+            resets = [i for i, s in v.stmts(lambda s: isinstance(s, ast.Assign) and ast.unparse(s.targets[0]) == "occupied_wait"
+                                            and isinstance(s.value, ast.Constant) and s.value.value == 0) if i > other[0]]
+            if not resets:
+                bad2 = v
+        else:
+            incs = [i for i, s in v.stmts(lambda s: isinstance(s, ast.AugAssign) and ast.unparse(s.target) == "occupied_wait" and isinstance(s.op, ast.Add))]
+            if not incs:
+                bad2 = v
+    ctx.record(rule + "c", "TABLE", T.TOT, "occupied_wait accumulates while bouncing from known nodes and restarts at 0.0 for a new node", bad2 is None and n2 >= 2,
+               {"paths": n2}, "" if bad2 is None else "the waiting budget of the occupied branch is no longer tracked per node")
+
+
+def run(ctx: Ctx) -> None:
     T.t_a1(ctx, "1/T.A1")
-    T.t_a1_owner(ctx, "2/owner")
+    T.t_a1_owner(ctx, "2")
     T.t_p1(ctx, "3/T.P1")
     T.t_e1(ctx, "4/T.E1")
     T.t_s1(ctx, "5/T.S1")
-    T.t_g1(ctx, "x/T.G1")
-    T.t_g2(ctx, "x/T.G2")
-    T.t_g3(ctx, "x/T.G3")
-    T.t_g4(ctx, "x/T.G4")
-    T.t_g5(ctx, "x/T.G5")
-    T.t_w1(ctx, "x/T.W1")
-    T.t_a2(ctx, "x/T.A2")
-    T.t_a2b(ctx, "x/T.A2b")
-    T.t_r1(ctx, "x/T.R1")
-    T.t_o1(ctx, "x/T.O1")
+    is_occupied_rule(ctx, "6")
+    reentrancy_rule(ctx, "7")
+    occupied_bounce(ctx, "8")
+    T.t_o1(ctx, "9/T.O1")
+
+
+G = "cartgraph/graph.py"
+MUTANTS = [
+    ("await-in-test-and-set", G, "        if test_node.is_occupied(worker):\n            return\n        test_node.started_worker = worker\n\n        # add previous",
+     "        if test_node.is_occupied(worker):\n            return\n        await asyncio.sleep(0)\n        test_node.started_worker = worker\n\n        # add previous", "1/T.A1"),
+    ("no-occupied-test-in-reverse", G, "        if test_node.is_occupied(worker):\n            return\n        test_node.started_worker = worker\n        if test_node.should_clean(worker):",
+     "        test_node.started_worker = worker\n        if test_node.should_clean(worker):", "1/T.A1"),
+    ("early-release", G, "        if test_node.should_run(worker):\n\n            if test_node.is_object_root():",
+     "        if test_node.should_run(worker):\n            test_node.started_worker = None\n\n            if test_node.is_object_root():", "3/T.P1"),
+    ("marker-written-in-node", NODE, "        self.prefix = \"0\" + self.prefix\n", "        self.prefix = \"0\" + self.prefix\n        self.started_worker = None\n", "2"),
+    ("threshold-floor-zero", NODE, "return self.is_started(worker, max(max_concurrent_tries, 1))", "return self.is_started(worker, max(max_concurrent_tries, 0))", "6"),
+    ("threshold-gt", NODE, "            return len(self.shared_started_workers) >= threshold", "            return len(self.shared_started_workers) > threshold", "6d"),
+    ("reentrancy-without-budget", G, "                    if occupied_wait > test_duration:", "                    if occupied_wait > 0:", "7b"),
+    ("own-marker-only", NODE, "        for bridged_node in self.bridged_nodes:\n            if bridged_node.started_worker is not None:\n                workers.add(bridged_node.started_worker)\n        return workers",
+     "        return workers", "6b"),
+    ("P-return-none", G, "        if test_node.is_occupied(worker):\n            return\n        test_node.started_worker = worker\n\n        # add previous",
+     "        occupied = test_node.is_occupied(worker)\n        if occupied:\n            return None\n        test_node.started_worker = worker\n\n        # add previous", None),
+]
